@@ -70,6 +70,8 @@ def roundtrip(s, layout, batch):
         return res
     try:
         X = torch.tensor(batch, dtype=torch.float32)
+        if layout == "3d":          # two leading batch dimensions: the symbol axis is still the last one
+            X = X.reshape((2, len(batch) // 2, -1) if len(batch) % 2 == 0 else (1, len(batch), -1))
         y = m(X)
         out = d(y)
         out = out.reshape(len(batch), -1)
@@ -97,6 +99,7 @@ def run(run):
         cat = [s for s in cat if s.config() == {k: v for k, v in run.only.get("config", {}).items() if k not in ("layout", "step")}]
     evs, owner = [], []
     tid = 0
+    rejected3d = set()
     for s in cat:
         try:
             b = s.b
@@ -105,7 +108,10 @@ def run(run):
                                                  "unit": False, "modidx": [], "slack": 0}
             evs.append(hdr)
             owner.append((s, "", ""))
-            for layout, batch in rows_for(s, rng, quick):
+            rws = rows_for(s, rng, quick)
+            # the batched cases again with two leading batch dimensions (rank-3 input); a scheme may reject that rank, a wrong answer counts
+            rws = rws + [("3d", batch) for (layout, batch) in rws if layout == "2d" and len(batch) >= 2 and len({len(r) for r in batch}) == 1][:3]
+            for layout, batch in rws:
                 steps = ["fresh", "again"] if s.kind in ("dpsk", "oqpsk", "pi4") else ["fresh"]
                 if s.kind in ("dpsk", "oqpsk", "pi4") and layout == "2d":
                     steps.append("after_train_then_reset")
@@ -119,6 +125,9 @@ def run(run):
                             pass
                         m.eval()
                     for (bits, out, nsym, raised, err) in roundtrip(s, layout, batch):
+                        if layout == "3d" and raised:
+                            rejected3d.add(s.name)
+                            continue
                         tid += 1
                         evs.append({"ev": "RoundTrip", "tid": tid, "kind": s.kind, "bits": bits, "out": out, "nsym": nsym, "raised": raised, "error": err})
                         owner.append((s, layout, step))
@@ -126,6 +135,7 @@ def run(run):
         except Exception as ex:
             run.violate(s.component, "construction_raised", s.config(), {"scheme": s.name, "error": repr(ex)[:200]})
     run.log("%d schemes, %d events" % (len(cat), len(evs)))
+    run.extra["schemes_rejecting_rank_3_input"] = sorted(rejected3d)
     mism = tv.validate(run, "Trace_Modem", evs, name="TV C05", timeout=3000, heap="12g")
     seen = set()
     for (t, line, clause) in mism:
